@@ -20,7 +20,7 @@ func init() {
 		},
 		Rule:      "a case = one generated design (model -> DSL call tree -> evaluated by a fresh goaeval process against the real DSL) that goa accepts; the real gen and example generators are run on it (fresh process, 120 s budget) and every Go package written is built with go build -gcflags=-e against the goa runtime packages of the tree under test. Five fixed matrix designs are always included (one single-parameter method per primitive kind x location x required/optional/defaulted and arrays of every kind; the parameter, view, defaults and gRPC matrices). Designs are drawn from eight generator profiles (names: the routes envelope outside the runtime subset with OneOf unions, Any, raw bytes in parameters and attribute names that are Go keywords, predeclared identifiers, acronyms, contain separators or non-ASCII letters, or equal identifiers the generated code declares; grpc: services served over gRPC with request metadata, nested messages, arrays, maps and aliases, built against the message code of the real protoc-gen-go run by the verifier's protoc stand-in; routes, views, request, response, errors, security: 1-3 services x 1-4 methods; all primitives, arrays, maps, inline objects, named/recursive user types, aliases, result types with views and collections, required/default/validations; path/query/header/cookie/body mappings, multiple routes, responses, tags, errors, security schemes, file servers). Designs goa rejects are counted but trivial (more than 25% rejected = inconclusive). Non-trivial = accepted design with >= 6 generator features whose feature vector was not seen before in the run. Distinct = profile + feature vector.",
 		LevelText: "Generated-input search: every accepted generated design is pushed through the real generators and the Go compiler; generator error, panic, timeout or any compiler diagnostic is a violation. Failures are clustered by normalised signature, the representative of every unexplained cluster is reduced (delta debugging over the design model) and saved with its diagnostics. Shapes covered by open known findings are excluded by construction (counted per finding) and re-created by TestProbes.",
-		LevelNote: "Trusts the Go tool chain (go build type-checks every generated package, including the example server and CLI), the DSL interpreter (goaeval calls the DSL functions through reflection exactly as compiled Go would) and the verifier's generator. Streaming, multipart, Extend/Reference, hostile type/service/method names and attribute names that collide after Goify are generated only by the 'wide' profile, which is not part of the registered tiers (see DESIGN.md section 9.4). protoc is not installed: a stand-in (cmd/protocshim) parses the generated .proto file, validates it with the protobuf runtime, runs the real protoc-gen-go on the descriptor and writes the service stubs protoc-gen-go-grpc would write from a template.",
+		LevelNote: "Trusts the Go tool chain (go build type-checks every generated package, including the example server and CLI), the DSL interpreter (goaeval calls the DSL functions through reflection exactly as compiled Go would) and the verifier's generator. Multipart, hostile type/service/method names and attribute names that collide after Goify are generated only by the 'wide' profile, which is not part of the registered tiers (see DESIGN.md section 9.4); streaming and Extend / Reference inheritance are compiled through fixed designs (stream matrices, InheritMatrix: chains of Extend, inline payloads and results that extend a type, user types, result types and inline payloads filled in by Reference), not through random designs. protoc is not installed: a stand-in (cmd/protocshim) parses the generated .proto file, validates it with the protobuf runtime, runs the real protoc-gen-go on the descriptor and writes the service stubs protoc-gen-go-grpc would write from a template.",
 		Technique: "property-based testing: grammar-based random generation of whole designs (rapid generators, fixed seeds), real generators + Go compiler as the oracle, failure clustering and delta-debugging reduction",
 		Assumptions: []string{
 			"a design is 'accepted' when eval.RunDSL returns nil in a fresh process",
